@@ -8,3 +8,6 @@ import MimicProps.C06
 #print axioms MimicProps.C06.int_param_roundtrip
 #print axioms MimicProps.C06.long_data_concat
 #print axioms MimicProps.C06.source_facts
+#print axioms MimicProps.C06.read_params_is_code
+#print axioms MimicProps.C06.code_params_decode_roundtrip
+#print axioms MimicProps.C06.read_param_value_is_code
